@@ -34,9 +34,10 @@ def cells_params(rng, cfg):
     r = rng.random()
     if r < cfg.get("p_scalar", 0.15):
         return []
+    a, b = cfg.get("cells_param_names", ["x", "y"])
     if r < 0.8:
-        return [["x", None]]
-    return [["x", None], ["y", rng.choice([1, 2])]]
+        return [[a, None]]
+    return [[a, None], [b, rng.choice([1, 2])]]
 
 
 class FGen:
@@ -288,13 +289,14 @@ def gen_formula(rng, model, space, name, cfg, params=None, pool=CELLS):
 
 
 def gen_space_formula(rng, model, space, cfg):
-    params = [["i", None]]
+    pn = cfg.get("space_param_names", ["i", "j"])
+    params = [[pn[0], None]]
     if rng.random() < 0.35:
-        params.append(["j", rng.choice([1, 2])])
+        params.append([pn[1], rng.choice([1, 2])])
     if cfg.get("ancestor_params") and isinstance(space.parent, rm.RSpace):
         # nested parametrised spaces get their own parameter names, so that cells below them can read the parameters
         # of every enclosing ItemSpace
-        params = [[{"i": "a", "j": "b"}[p], d] for p, d in params]
+        params = [[{pn[0]: "a", pn[1]: "b"}[p], d] for p, d in params]
     r = rng.random()
     ret = None
     if r < 0.35:
